@@ -11,6 +11,10 @@ var registry = map[string]func() core.Property{
 	"C09": NewC09,
 	"C13": NewC13,
 	"C14": NewC14,
+	"C15": NewC15,
+	"C16": NewC16,
+	"C17": NewC17,
+	"C18": NewC18,
 	"C10": NewC10,
 	"C11": NewC11,
 	"C12": NewC12,
